@@ -30,7 +30,25 @@ follow ITS configuration; key = "session:neighbour-own-page[-later]:<Part A key>
 
 Part D (overlapping renderings): 2-3 real threads render on ONE Ribosome under rv.sched (switches at every read /
 write of an instance field of the renderer); each result must be its own expansion; key = "overlap:<Part A key>".
+
+Part E (long histories): one renderer with > 20 000 renderings, each after one more distinct template was registered (pages
+include the newest, an early and a random earlier template; missing variables, strict errors, raising filters, unknown includes
+and reads of the reporting API in between; a second renderer used alternately), each-loops over > 20 000 distinct items, one
+page of thousands of constructs with long values; key = "long-session:<Part A key>" / "long:<Part A key>".
+
+Round 3 (all Parts): the renderer's configuration is part of the case - custom filters none / {} / names that are case
+variants of built-ins, a built-in overridden, odd but legal names; partials handed to the constructor / registered /
+created with descriptions; console output on (swallowed) for ~30% - and the generators draw from the classes a tolerant or
+identity-confused lookup would get wrong: default texts that are NEAR a filter name (other letter case, prefix, suffix,
+blank-padded), includes / bindings / dict-item keys that are near misses of a registered template / used name / field,
+names that are prefixes or case variants of each other or are called like filters, templates, API words; tuples, the same
+item object or equal-but-distinct items repeated, items equal across types (0 / False / 0.0), one object under two names,
+values that are not builtins (str() != repr()), boundary numbers, single braces in text and values, empty templates.
+The expansion is computed from the bindings BEFORE the real renderer sees them (a renderer that reorders or edits the
+caller's objects is judged against what was given). A registration or construction that raises is
+"registration-raises:<api>".
 """
+import contextlib
 import inspect
 import sys
 
@@ -45,7 +63,9 @@ TECHNIQUE = ("runtime monitoring: the real Ribosome renders generated templates;
              "same construct absent from / present before / present after the value slot as a real slot of the template); "
              "the same oracle judges every rendering of multi-step sessions on one long-lived renderer (with re-entrant "
              "renderings started from filter callbacks, and with a second, differently configured renderer created and used "
-             "next to it) and of overlapping renderings from threads under a controlled scheduler")
+             "next to it), of overlapping renderings from threads under a controlled scheduler and of long histories "
+             "(> 20 000 renderings / registered templates / loop items on one renderer); renderer configuration (filters, "
+             "registration route, console output) and near-miss names are part of the generated case")
 RULE = ("Part A case = 1 generated template set (main + up to 3 levels of acyclic includes) x 5 contexts x strict on/off; "
         "Part B case = 1 host template x every (slot location, slot form, sentinel kind, sentinel construct also a real "
         "slot: no / before / after) combination; "
@@ -53,6 +73,8 @@ RULE = ("Part A case = 1 generated template set (main + up to 3 levels of acycli
         "revalue / revalue-one / same / new / mutate-list / reregister / register-unknown / repage / toggle-strict / "
         "neighbour = another differently configured renderer created and used); "
         "Part D case = 1 template set x 1 renderer x 2-3 threads x 1-2 renderings each x 1 schedule; "
+        "Part E case = 1 long history on one renderer (session of > 20 000 registrations+renderings / loops over > 20 000 "
+        "items / a page of thousands of constructs); "
         "non-trivial = the template set uses >= 2 construct kinds (Part C: and >= 2 renderings; Part D: and the schedule "
         "switched threads while another rendering was in progress); distinct = (template shape, binding pattern, strict) "
         "for Part A, (host shape, slot location, slot form, sentinel kind, echo) for Part B, (template shapes, step sequence) "
@@ -81,6 +103,20 @@ ASSUMPTIONS = [
     "verbatim inside the value; the known-finding keys are unchanged (a pair is named by slot kind and interpreting pass)",
     "Part D: renderings that overlap in time on one renderer (registry unchanged meanwhile) must each yield their own "
     "expansion; threads are switched only at reads/writes of the renderer's instance fields",
+    "round 3: a text after '|' is a filter exactly when that very string is a key of the renderer's filters (built-ins plus "
+    "the constructor's `filters`; a custom entry replaces a built-in of the same name); every other text - including one that "
+    "differs from a filter name only in letter case, by blanks, by a prefix or suffix - is a default text; template names, "
+    "variable names and dict-item keys are matched exactly (case-sensitive, no trimming, no normalisation)",
+    "round 3: a bound tuple is iterated like a list; loop index/first/last are positional (an item that occurs twice, or equals "
+    "another item, does not change them); a non-string value is printed as str(value); truthiness of a condition is bool(value)",
+    "round 3: an mRNA object handed to translate() is rendered as it is, whatever its name (also the name of another "
+    "registered template, or none); `silent` only switches console output; templates handed to the constructor, registered "
+    "or created (with any description) are the same registry; reading get_statistics / list_templates / repr / "
+    "get_required_variables and writing to a returned Protein change no later rendering (a read that raises is recorded, "
+    "not judged); an error raised by a rendering (strict mode, a caller's filter) changes no later rendering",
+    "round 3: the expansion is defined by the bindings as they are when the call is made; constructing a renderer or "
+    "registering a named template never raises, console output on or off (key registration-raises:<api>)",
+    "strict / silent are only given as bools (their annotations); clock and feedback/learning APIs do not exist on a Ribosome",
 ]
 
 # Documentation only (never consulted by the verdict): the mechanism keys this check emits on the unchanged tree.
@@ -127,21 +163,63 @@ def _classes():
     return _MON["Ribosome"], _MON["mRNA"]
 
 
+class _Sink:
+    """Where a non-silent renderer's console output goes (counted, never inspected)."""
+
+    def __init__(self):
+        self.writes = 0
+
+    def write(self, s):
+        self.writes += 1
+        return len(s)
+
+    def flush(self):
+        pass
+
+
+SINK = _Sink()
+
+
+@contextlib.contextmanager
+def muted():
+    if sys.stdout is SINK:
+        yield
+        return
+    old = sys.stdout
+    sys.stdout = SINK
+    try:
+        yield
+    finally:
+        sys.stdout = old
+
+
 def teardown_shard(ctx):
     R, _ = _classes()
     for k, v in R.reach.items():
         ctx.count(k, v)
+    ctx.count("verbose_console_writes_swallowed", SINK.writes)
+
+
+def pure_filters(prof):
+    """The documented built-in filters plus the custom filters of a profile, as pure callables of the reference (equal to, but
+    never the same objects as, the ones handed to a renderer)."""
+    _classes()
+    pure = dict(_MON["builtin"])
+    pure.update(prof.ctor_arg() or {})
+    return pure
 
 
 NB = {"quick": 160, "thorough": 3000}      # Part B hosts (x 1045 slot/sentinel/echo combinations each)
 NA = {"quick": 30000, "thorough": 500000}  # Part A template sets (x 5 contexts each)
 NC = {"quick": 8000, "thorough": 120000}   # Part C sessions on one long-lived renderer (3-9 renderings each)
 ND = {"quick": 600, "thorough": 8000}      # Part D overlapping renderings from 2-3 threads on one renderer
+NE = {"quick": 3, "thorough": 12}          # Part E long histories (one each of: long session / huge loop / huge page, per 3)
+E_OPS = {"quick": 22000, "thorough": 45000}
 CTX_PER_CASE = 5
 
 
 def plan(tier):
-    return {"cases": NB[tier] + NA[tier] + NC[tier] + ND[tier], "shards": 8 if tier == "quick" else 14,
+    return {"cases": NB[tier] + NA[tier] + NC[tier] + ND[tier] + NE[tier], "shards": 8 if tier == "quick" else 14,
             "min_nontrivial": 30000, "timeout": 600 if tier == "quick" else 2400,
             "require": {
                 # Part A workload actually judged
@@ -180,6 +258,28 @@ def plan(tier):
                 "partc_unknown_include_is_template_of_other_renderer": 120,
                 "partd_schedules": 100, "partd_schedules_interleaved": 70, "partd_renders": 300,
                 "partd_text_compared": 250, "partd:ref_include_depth1": 500,
+                # round 3: input classes, renderer configurations, console output, reads, long histories
+                "via_translate_mrna_alias": 8000,
+                "class:default_text_near_a_filter_name_bound": 4000, "class:default_text_near_a_filter_name_unbound": 800,
+                "class:builtin_filter_overridden": 700, "class:custom_filter_named_like_a_builtin_in_other_case": 8000,
+                "class:unknown_include_differs_in_case_from_a_template": 700, "class:two_templates_differ_in_case_only": 2500,
+                "class:unbound_name_with_near_miss_binding": 3500, "class:tuple_bound": 1500,
+                "class:same_dict_item_twice": 700, "class:items_equal_across_types": 1000,
+                "class:boundary_number_bound": 1500, "class:non_builtin_object_bound": 2000,
+                "class:single_brace_in_value": 1800, "class:one_object_under_two_names": 150,
+                "class:include_named_like_a_bound_variable": 2500,
+                "parta_cases_filters_none": 500, "parta_cases_filters_empty": 300, "parta_cases_filters_custom": 1800,
+                "parta_cases_verbose": 1400, "parta_cases_partials_through_ctor": 1000,
+                "parta_cases_partials_through_ctor-empty": 900, "parta_cases_partials_through_create": 1000,
+                "verbose_console_writes_swallowed": 25000,
+                "partc_sessions_verbose": 400, "partc_sessions_other_filter_configuration": 700,
+                "partc_reporting_api_read_before_render": 2500, "partc_equal_but_distinct_page_object": 900,
+                "partc_same_template_object_under_two_names": 150, "partc_render_judged_after_a_filter_raised": 80,
+                "partc_render_judged_after_an_error_was_raised": 400,
+                "parte_session_renders_conforming": 15000, "parte_distinct_templates_on_one_renderer": 20000,
+                "parte_include_of_template_registered_over_20000_registrations_ago": 100, "parte_loop_items": 20000,
+                "parte_big_renders_conforming": 2, "parte_page_constructs": 1000,
+                "parte_render_judged_after_a_raised_error": 200, "parte_other_renderer_renders": 5,
                 # the real renderer's handling of each construct family exercised AND found conforming (behavioural: keyed
                 # to results this check judged; the informational reach:<private helper> counters are never required)
                 "conforming_render_expanded:conditional": 25000, "conforming_render_expanded:loop": 25000,
@@ -187,7 +287,35 @@ def plan(tier):
             }}
 
 
+class RegistrationRaised(Exception):
+    """Constructing a renderer or registering a well-formed, named template raised (whatever the console mode)."""
+
+    def __init__(self, api, exc, what):
+        super().__init__(api)
+        self.api, self.exc, self.what = api, exc, what
+
+
+@contextlib.contextmanager
+def registering(api, what):
+    try:
+        with muted():
+            yield
+    except RegistrationRaised:
+        raise
+    except Exception as e:
+        raise RegistrationRaised(api, e, what)
+
+
 def run_case(ctx, n):
+    try:
+        return _run_case(ctx, n)
+    except RegistrationRaised as e:
+        # the rest of the case cannot be rendered through the documented route
+        ctx.violation("registration-raises:" + e.api, "%s raised %s for a well-formed named template" % (e.api, type(e.exc).__name__),
+                      {"error": repr(e.exc), "registering": e.what})
+
+
+def _run_case(ctx, n):
     t = ctx.tier
     if n < NB[t]:
         return case_B(ctx, n)
@@ -195,38 +323,85 @@ def run_case(ctx, n):
         return case_A(ctx, n)
     if n < NB[t] + NA[t] + NC[t]:
         return case_C(ctx, n - NB[t] - NA[t])
-    return case_D(ctx, n - NB[t] - NA[t] - NC[t])
+    if n < NB[t] + NA[t] + NC[t] + ND[t]:
+        return case_D(ctx, n - NB[t] - NA[t] - NC[t])
+    return case_E(ctx, n - NB[t] - NA[t] - NC[t] - ND[t])
 
 
 # ----------------------------------------------------------------------------- running the real code
-VIAS = ["translate_name", "translate_mrna", "synthesize"]
+VIAS = ["translate_name", "translate_mrna", "synthesize", "translate_mrna_alias"]
+REGS = ["register", "register", "ctor", "ctor-empty", "create"]
 
 
 def render_on(rib, seq, page, bind, via):
-    """One rendering on an existing renderer ("page0" registered, `page` = the page's mRNA object)."""
+    """One rendering on an existing renderer ("page0" registered, `page` = the page's mRNA object).
+    "translate_mrna_alias": the page is handed over as an mRNA object that carries the NAME of another registered template
+    (or no name at all) - an mRNA object is rendered as it is, whatever it is called."""
     try:
-        if via == "translate_name":
-            p = rib.translate("page0", **dict(bind))
-        elif via == "translate_mrna":
-            p = rib.translate(page, **dict(bind))
-        else:
-            p = rib.synthesize(seq, **dict(bind))
-        return ("ok", p.sequence, list(p.warnings))
+        with muted():
+            if via == "translate_name":
+                p = rib.translate("page0", **dict(bind))
+            elif via == "translate_mrna":
+                p = rib.translate(page, **dict(bind))
+            elif via == "translate_mrna_alias":
+                _, mRNA = _classes()
+                alias = next((nm for nm in rib.templates if nm != "page0"), "")
+                p = rib.translate(mRNA(sequence=seq, name=alias), **dict(bind))
+            else:
+                p = rib.synthesize(seq, **dict(bind))
+        out = ("ok", p.sequence, list(p.warnings))
+        # what a caller may do with a result it owns must not reach later renderings
+        p.warnings.append("caller scribbles on a returned result")
+        if isinstance(p.variables_bound, dict):
+            p.variables_bound.clear()
+        return out
     except Exception as e:  # judged by the caller
         return ("raise", e, None)
 
 
-def render_real(templates, bind, strict, via):
+def build_renderer(R, mRNA, partials, prof, strict, silent, reg, filters="profile"):
+    """A renderer configured with the profile's filters and holding `partials` ({name: sequence}) - handed to the constructor,
+    registered one by one, or created through create_template (with a description that looks like template text)."""
+    flt = prof.ctor_arg() if filters == "profile" else filters
+    cfgd = {"silent": silent, "strict": strict}
+    if reg == "ctor":
+        with registering("constructor", dict(cfgd, templates=partials)):
+            return R(templates={nm: mRNA(sequence=sq, name=nm) for nm, sq in partials.items()}, filters=flt, strict=strict,
+                     silent=silent)
+    with registering("constructor", cfgd):
+        rib = R(templates={}, filters=flt, strict=strict, silent=silent) if reg == "ctor-empty" else \
+            R(filters=flt, strict=strict, silent=silent)
+    for nm, sq in partials.items():
+        if reg == "create":
+            with registering("create_template", dict(cfgd, name=nm, sequence=sq)):
+                rib.create_template(sq, nm, description="about {{user}} {{>%s}} {{#if x}}" % nm)
+        else:
+            with registering("register_template", dict(cfgd, name=nm, sequence=sq)):
+                rib.register_template(mRNA(sequence=sq, name=nm, description="d {{?%s}}" % nm))
+    return rib
+
+
+def render_real(templates, bind, strict, via, prof=M.CLASSIC, silent=True, reg="register", exp_out=None):
     R, mRNA = _classes()
-    rib = R(filters=M.custom_filters(), strict=strict, silent=True)
-    for name, nodes in templates.items():
-        if name != "__main__":
-            rib.register_template(mRNA(sequence=M.unparse(nodes), name=name))
+    rib = build_renderer(R, mRNA, {nm: M.unparse(nodes) for nm, nodes in templates.items() if nm != "__main__"},
+                         prof, strict, silent, reg)
     seq = M.unparse(templates["__main__"])
     page = mRNA(sequence=seq, name="page0")
     if via == "translate_name":
-        rib.register_template(page)
+        with registering("register_template", {"silent": silent, "name": "page0", "sequence": seq}):
+            rib.register_template(page)
+    if exp_out is not None:
+        # the expansion of the bindings AS GIVEN: computed before the real renderer sees (and could change) them
+        exp_out.append(expand(templates, pure_filters(prof), bind))
     return rib, render_on(rib, seq, page, bind, via)
+
+
+def expand(templates, filters, bind):
+    ref = M.Ref(templates, filters, bind)
+    try:
+        return ref, ref.render("__main__"), None
+    except M.FilterRaised as e:
+        return ref, None, e
 
 
 def witness(templates, bind, strict, via, **extra):
@@ -236,12 +411,15 @@ def witness(templates, bind, strict, via, **extra):
 
 
 # ----------------------------------------------------------------------------- Part A oracle
-def judge(ctx, templates, bind, strict, via, prefix="", quiet=False):
+def judge(ctx, templates, bind, strict, via, prefix="", quiet=False, prof=M.CLASSIC, silent=True, reg="register"):
     """Compare one real rendering (fresh renderer) with the reference. Returns None if conforming, else a mechanism key.
     quiet=True only computes the verdict (used to localise a mismatch to one construct)."""
-    rib, res = render_real(templates, bind, strict, via)
-    return assess(ctx, templates, rib.filters, res, bind, strict, via, prefix=prefix, quiet=quiet,
-                  tag=None if prefix else "parta")
+    exp = []
+    rib, res = render_real(templates, bind, strict, via, prof, silent, reg, exp_out=exp)
+    cfg = None if (prof is M.CLASSIC and silent and reg == "register") else \
+        lambda: {"renderer": dict(prof.describe(), silent=silent, partials_given_through=reg)}
+    return assess(ctx, templates, None, res, bind, strict, via, prefix=prefix, quiet=quiet,
+                  tag=None if prefix else "parta", exp=exp[0], extra_witness=cfg, cfg=(prof, silent, reg))
 
 
 # Part D (renderings overlapping in threads) is measured and reported in the evidence but NOT judged: the statement quantifies over
@@ -251,14 +429,13 @@ JUDGE_OVERLAP = False
 
 
 def assess(ctx, templates, filters, res, bind, strict, via, prefix="", quiet=False, tag=None, extra_witness=None,
-           stats_out=None, ref_out=None):
+           stats_out=None, ref_out=None, exp=None, cfg=None):
     """Judge one rendering result `res` of (templates, bind, strict) against the single-pass expansion.
-    `filters` = the (pure) filter callables the reference applies. `tag` selects the coverage counters
-    ("parta" keeps the historical names; other tags prefix them); `extra_witness()` is evaluated only on a violation."""
-    ref = M.Ref(templates, filters, bind)
-    try:
-        parts = ref.render("__main__")
-    except M.FilterRaised as e:
+    `filters` = the (pure) filter callables the reference applies, or `exp` = the expansion computed before the rendering
+    (see `expand`). `tag` selects the coverage counters ("parta" keeps the historical names; other tags prefix them);
+    `extra_witness()` is evaluated only on a violation; `cfg` = renderer configuration used when a mismatch is localised."""
+    ref, parts, ferr = exp if exp is not None else expand(templates, filters, bind)
+    if ferr is not None:
         if not quiet:
             ctx.count("filter_raised_not_judged")
             if res[0] == "ok":
@@ -279,11 +456,13 @@ def assess(ctx, templates, filters, res, bind, strict, via, prefix="", quiet=Fal
 
     def fail(mech, what, **extra):
         if not quiet:
-            if extra_witness is not None:
-                extra.update(extra_witness())
             if prefix == "overlap:" and not JUDGE_OVERLAP:
                 ctx.count("recorded_not_judged:" + prefix + mech)
+            elif ctx.violation_counts.get(prefix + mech, 0) >= core.MAX_WITNESS_PER_MECH:
+                ctx.violation(prefix + mech, what, None)        # only the first witnesses of a mechanism are kept
             else:
+                if extra_witness is not None:
+                    extra.update(extra_witness())
                 ctx.violation(prefix + mech, what, witness(templates, bind, strict, via, **extra))
         return prefix + mech
 
@@ -324,7 +503,7 @@ def assess(ctx, templates, filters, res, bind, strict, via, prefix="", quiet=Fal
         if not quiet and tag in (None, "parta"):
             # localising costs extra renderings (on fresh renderers): do it for the first mismatches of a shard only
             seen = sum(v for k, v in ctx.violation_counts.items() if "render-mismatch" in k)
-            mech += ":" + (localise(ctx, templates, bind, strict, via) if seen < 60 else "not-localised")
+            mech += ":" + (localise(ctx, templates, bind, strict, via, cfg) if seen < 60 else "not-localised")
         return fail(mech, "rendered text differs from the single-pass expansion",
                     expected=M.concrete(parts), actual=text, warnings=warnings)
     if not quiet:
@@ -363,15 +542,16 @@ def expanded_kinds(stats):
     return kinds
 
 
-def localise(ctx, templates, bind, strict, via):
+def localise(ctx, templates, bind, strict, via, cfg=None):
     """Which single construct already misrenders on its own? (stable classifier for mismatches)"""
+    prof, silent, reg = cfg or (M.CLASSIC, True, "register")
     def walk(nodes, label):
         for nd in nodes:
             if nd[0] == "text":
                 continue
             t = dict(templates)
             t["__main__"] = [("text", "<"), nd, ("text", ">")]
-            if judge(ctx, t, bind, strict, via, quiet=True):
+            if judge(ctx, t, bind, strict, via, quiet=True, prof=prof, silent=silent, reg=reg):
                 inner = None
                 if nd[0] == "inc" and nd[1] in templates:
                     inner = walk(templates[nd[1]], label + "inc>")
@@ -401,23 +581,103 @@ def binding_pattern(templates, bind):
 
 def case_A(ctx, n):
     rng = ctx.rng("A", n)
-    templates, names = M.gen_templates(rng)
+    prof = M.gen_profile(rng)                    # what the renderer is configured with (filters: none / {} / custom names)
+    silent = rng.random() < 0.7                  # a fair share of the workload runs the console-output branches
+    reg = rng.choice(REGS)
+    templates, names = M.gen_templates(rng, prof=prof)
     kinds = M.construct_kinds(templates)
     shp = tuple(sorted((k, M.shape(v)) for k, v in templates.items()))
+    ctx.count("parta_cases_filters_" + ("classic" if prof is M.CLASSIC else prof.ctor if prof.ctor != "dict" else "custom"))
+    ctx.count("parta_cases_" + ("silent" if silent else "verbose"))
+    ctx.count("parta_cases_partials_through_" + reg)
     for j in range(CTX_PER_CASE):
         p_bound = rng.choice([1.0, 1.0, 0.85, 0.6])
         bind = M.gen_context(rng, templates, p_bound)
         strict = rng.random() < 0.35
-        via = VIAS[(n + j) % 3]
+        via = VIAS[(n + j) % len(VIAS)]
         ctx.count("parta_pairs")
         ctx.count("via_" + via)
         if strict:
             ctx.count("parta_strict_runs")
-        mech = judge(ctx, templates, bind, strict, via)
+        before = sum(ctx.violation_counts.values())
+        mech = judge(ctx, templates, bind, strict, via, prof=prof, silent=silent, reg=reg)
+        if mech is None and sum(ctx.violation_counts.values()) == before:
+            note_classes(ctx, templates, bind, prof)
         if len(kinds) >= 2:
             ctx.nontrivial(("A", shp, binding_pattern(templates, bind), strict))
         if j == 0 and n % 997 == 0:
-            ctx.sample(witness(templates, bind, strict, via, part="A", verdict=mech or "conforms"))
+            ctx.sample(witness(templates, bind, strict, via, part="A", verdict=mech or "conforms",
+                               renderer=dict(prof.describe(), silent=silent, partials_given_through=reg)))
+
+
+def _walk(templates):
+    for nodes in templates.values():
+        stack = list(nodes)
+        while stack:
+            nd = stack.pop()
+            yield nd
+            if nd[0] == "if":
+                stack.extend(nd[2])
+                stack.extend(nd[3] or [])
+            elif nd[0] == "each":
+                stack.extend(nd[2])
+
+
+def note_classes(ctx, templates, bind, prof):
+    """Counters for the input classes whose absence would make a run say nothing about them (coarse: the class occurs in the
+    case's templates / bindings; whether it was evaluated is the reference's business)."""
+    low = {f.lower() for f in prof.fset}
+    names = set()
+    for nd in _walk(templates):
+        k = nd[0]
+        if k == "def":
+            names.add(nd[1])
+            w = nd[2]
+            if w.strip().lower() in low or any(f.startswith(w) or w.startswith(f) for f in prof.fset):
+                ctx.count("class:default_text_near_a_filter_name")
+                if nd[1] in bind:
+                    ctx.count("class:default_text_near_a_filter_name_bound")
+                else:
+                    ctx.count("class:default_text_near_a_filter_name_unbound")
+        elif k == "filt":
+            names.add(nd[1])
+            if nd[2] not in M.BUILTIN_NAMES and nd[2].lower() in M.SAFE_FILTERS:
+                ctx.count("class:custom_filter_named_like_a_builtin_in_other_case")
+            elif nd[2] in M.BUILTIN_NAMES and nd[2] in prof.custom:
+                ctx.count("class:builtin_filter_overridden")
+        elif k == "inc":
+            if nd[1] not in templates and any(t.lower() == nd[1].lower() for t in templates):
+                ctx.count("class:unknown_include_differs_in_case_from_a_template")
+            elif nd[1] in templates and any(t != nd[1] and t.lower() == nd[1].lower() for t in templates):
+                ctx.count("class:two_templates_differ_in_case_only")
+            if nd[1] in bind:
+                ctx.count("class:include_named_like_a_bound_variable")
+        elif k in ("var", "opt", "if", "each"):
+            names.add(nd[1])
+    lowb = {}
+    for k in bind:
+        lowb.setdefault(k.strip().lower(), []).append(k)
+    for nme in names:
+        if nme not in bind and nme.lower() in lowb:
+            ctx.count("class:unbound_name_with_near_miss_binding")
+    for v in bind.values():
+        if isinstance(v, tuple) and v and not isinstance(v[0], int):
+            ctx.count("class:tuple_bound")
+        if isinstance(v, (list, tuple)) and len(v) > 1:
+            if any(a is b for i, a in enumerate(v) for b in v[i + 1:] if isinstance(a, dict)):
+                ctx.count("class:same_dict_item_twice")
+            if len({repr(x) for x in v}) == len(v) and len(v) > len({(x if isinstance(x, (int, float, str)) else id(x)) for x in v}):
+                ctx.count("class:items_equal_across_types")
+        if isinstance(v, float) and (v != v or v in (float("inf"), float("-inf")) or abs(v) > 1e20) or \
+                (isinstance(v, int) and not isinstance(v, bool) and abs(v) > 2 ** 53):
+            ctx.count("class:boundary_number_bound")
+        if isinstance(v, (M.Obj, M.Empty)):
+            ctx.count("class:non_builtin_object_bound")
+        if isinstance(v, str) and ("{" in v or "}" in v):
+            ctx.count("class:single_brace_in_value")
+    vals = [v for v in bind.values() if isinstance(v, (list, dict))]
+    if any(a is b for i, a in enumerate(vals) for b in vals[i + 1:]):
+        ctx.count("class:one_object_under_two_names")
 
 
 # ----------------------------------------------------------------------------- Part B: taint sentinels
@@ -576,7 +836,7 @@ def case_B(ctx, n):
     for ci, (loc, form, sk, echo) in enumerate(COMBOS):
         crng = ctx.rng("B", n, ci)
         T, make_bind, construct, sig, info = build_B(crng, host, host_bind, loc, form, sk, echo)
-        via = VIAS[(n + ci) % 3]
+        via = VIAS[(n + ci) % len(VIAS)]
         ctx.count("partb_combos")
         if echo:
             ctx.count("partb_echo_" + echo)
@@ -661,10 +921,13 @@ class Reentry:
         self.busy = True
         try:
             self.calls += 1
+            if self.calls % 2 == 0:
+                read_apis(self.rib, self.calls)
             bind = {"zr": "r%d" % self.calls, "zo": self.calls % 3}
             expected = M.concrete(M.Ref({"__main__": NEST_MAIN, "zsub": NEST_SUB}, {}, bind).render("__main__"))
             try:
-                got = ("ok", self.rib.synthesize(M.unparse(NEST_MAIN), **bind).sequence)
+                with muted():
+                    got = ("ok", self.rib.synthesize(M.unparse(NEST_MAIN), **bind).sequence)
             except Exception as e:
                 got = ("raise", repr(e))
             self.log.append((bind, got, expected))
@@ -673,19 +936,39 @@ class Reentry:
 
 
 RENDER_STEPS = ["revalue", "revalue-one", "same", "new", "mutate-list", "reregister", "register-unknown", "repage",
-                "toggle-strict", "neighbour"]
-STEP_WEIGHTS = [30, 10, 8, 15, 10, 10, 5, 4, 4, 8]
-REG_HOW = ["register", "register-named", "create"]
+                "toggle-strict", "neighbour", "register-alias"]
+STEP_WEIGHTS = [30, 10, 8, 15, 10, 10, 5, 4, 4, 8, 3]
+REG_HOW = ["register", "register-named", "create", "create-described"]
 
 
 def register(rib, mRNA, name, seq, how):
     """(Re-)register `seq` under `name` through the public API."""
-    if how == "register":
-        rib.register_template(mRNA(sequence=seq, name=name))
-    elif how == "register-named":
-        rib.register_template(mRNA(sequence=seq, name="draft_of_" + name), name=name)
-    else:
-        rib.create_template(seq, name)
+    with registering("create_template" if how.startswith("create") else "register_template", {"name": name, "sequence": seq}):
+        if how == "register":
+            rib.register_template(mRNA(sequence=seq, name=name))
+        elif how == "register-named":
+            rib.register_template(mRNA(sequence=seq, name="draft_of_" + name, description="draft"), name=name)
+        elif how == "create":
+            rib.create_template(seq, name)
+        else:
+            rib.create_template(seq, name, description="{{user}} {{>%s}} {{#each items}}" % name)
+
+
+def read_apis(rib, k):
+    """What a caller may look at between (or during) renderings: the reporting / listing API, repr, the page's declared
+    variables. Read-only by contract: no later rendering may depend on whether this was called. Returns the number of
+    reads that raised (recorded, not judged: the statement is about renderings)."""
+    bad = 0
+    reads = [lambda: rib.get_statistics(), lambda: rib.list_templates(), lambda: repr(rib), lambda: str(rib),
+             lambda: sorted(rib.templates), lambda: sorted(rib.filters), lambda: [t.get_required_variables() for t in
+                                                                                   list(rib.templates.values())[:3]],
+             lambda: (rib.strict, rib.silent)]
+    for i in range(3):
+        try:
+            reads[(k + i * 3) % len(reads)]()
+        except Exception:
+            bad += 1
+    return bad
 
 
 def build_neighbour(rng, templates, strict):
@@ -713,13 +996,15 @@ def build_neighbour(rng, templates, strict):
                        ("inc", rng.choice(M.UNKNOWN_INC)), ("text", ">")]
     pre = {nm: mRNA(sequence=M.unparse(nodes), name=nm) for nm, nodes in nbt.items() if nm != "__main__"}
     seq = M.unparse(nbt["__main__"])
-    if rng.random() < 0.5:
-        rib = R(templates=dict(pre), filters=filters, strict=not strict, silent=True)
-    else:
-        rib = R(filters=filters, strict=not strict, silent=True)
-        for nm in pre:
-            rib.register_template(pre[nm])
-    rib.create_template(seq, "page0")
+    nb_silent = rng.random() < 0.6
+    with registering("constructor/register_template/create_template", {"silent": nb_silent, "templates": sorted(pre), "page0": seq}):
+        if rng.random() < 0.5:
+            rib = R(templates=dict(pre), filters=filters, strict=not strict, silent=nb_silent)
+        else:
+            rib = R(filters=filters, strict=not strict, silent=nb_silent)
+            for nm in pre:
+                rib.register_template(pre[nm])
+        rib.create_template(seq, "page0")
     pure = dict(_MON["builtin"])
     pure.update(filters)
     return {"rib": rib, "templates": nbt, "seq": seq, "page": rib.templates["page0"], "pure": pure, "strict": not strict,
@@ -735,24 +1020,21 @@ def case_C(ctx, n):
     registered AT THAT MOMENT with the bindings given to THAT call."""
     rng = ctx.rng("C", n)
     R, mRNA = _classes()
-    templates, names = M.gen_templates(rng, max_main=6, p_inc=0.9)
+    prof = M.gen_profile(rng)
+    silent = rng.random() < 0.7
+    reads = rng.random() < 0.5          # this session's caller also looks at the reporting API between renderings
+    templates, names = M.gen_templates(rng, max_main=6, p_inc=0.9, prof=prof)
     templates["zsub"] = NEST_SUB
     strict = rng.random() < 0.25
-    pure = dict(_MON["builtin"])
-    pure.update(M.custom_filters())
+    pure = pure_filters(prof)
     reentrant = rng.random() < 0.6
     re_ = Reentry(pure)
-    flt = re_.filters() if reentrant else M.custom_filters()
+    flt = re_.filters() if reentrant else prof.ctor_arg()
 
     def make_renderer():
         """A renderer with the session's configuration and the templates registered at this moment."""
-        pre = {nm: mRNA(sequence=M.unparse(nodes), name=nm) for nm, nodes in templates.items() if nm != "__main__"}
-        if rng.random() < 0.5:      # registry handed to the constructor
-            return R(templates=dict(pre), filters=flt, strict=strict, silent=True)
-        r = R(filters=flt, strict=strict, silent=True)
-        for nm in pre:
-            r.register_template(pre[nm])
-        return r
+        return build_renderer(R, mRNA, {nm: M.unparse(nodes) for nm, nodes in templates.items() if nm != "__main__"},
+                              prof, strict, silent, rng.choice(REGS), filters=flt)
     rib = make_renderer()
     re_.rib = rib
     st = {"seq": None, "page": None}
@@ -786,6 +1068,11 @@ def case_C(ctx, n):
     ctx.count("partc_sessions")
     if reentrant:
         ctx.count("partc_sessions_reentrant_filters")
+    if not silent:
+        ctx.count("partc_sessions_verbose")
+    if prof is not M.CLASSIC:
+        ctx.count("partc_sessions_other_filter_configuration")
+    prev = None                 # how the previous rendering of the session ended: "judged" / "filter-raised" / "error"
     for step in steps:
         # ---- what the caller does before this rendering
         if step == "new" or bind is None:
@@ -827,13 +1114,19 @@ def case_C(ctx, n):
                 level = rng.choice(sorted(lv))
                 target = rng.choice(lv[level])
                 deeper = [t for l2 in lv if l2 > level for t in lv[l2]]
-                nodes = M.gen_nodes(rng, names, deeper, 1, 4)
+                nodes = M.gen_nodes(rng, names, deeper, rng.choice([0, 1, 1, 1]), 4, prof=prof)
             elif step == "register-unknown":
                 target = rng.choice(M.UNKNOWN_INC)
-                nodes = M.gen_nodes(rng, names, None, 1, 3)
+                nodes = M.gen_nodes(rng, names, None, 1, 3, prof=prof)
+            elif step == "register-alias" and lv:
+                # the very same template OBJECT that is registered under one name is registered under a second name
+                src = rng.choice([t for l2 in lv for t in lv[l2]])
+                target = rng.choice(M.UNKNOWN_INC)
+                nodes = templates[src]
+                how = "same-object:" + src
             elif step == "repage":
                 target = "__main__"
-                nodes = M.gen_nodes(rng, names, [t for l2 in lv for t in lv[l2]], 1, 6)
+                nodes = M.gen_nodes(rng, names, [t for l2 in lv for t in lv[l2]], 1, 6, prof=prof)
                 if lv.get(1) and rng.random() < 0.8:
                     nodes.insert(rng.randint(0, len(nodes)), ("inc", rng.choice(lv[1])))
             if target is not None:
@@ -852,7 +1145,12 @@ def case_C(ctx, n):
                 set_page(how)
                 history.append({"step": step, "how": how, "page": st["seq"]})
             else:
-                register(rib, mRNA, target, M.unparse(nodes), how)
+                if how.startswith("same-object:"):
+                    with registering("register_template", {"name": target, "same_object_as": how}):
+                        rib.register_template(rib.templates[how.split(":", 1)[1]], name=target)
+                    ctx.count("partc_same_template_object_under_two_names")
+                else:
+                    register(rib, mRNA, target, M.unparse(nodes), how)
                 history.append({"step": step, "how": how, "name": target, "sequence": M.unparse(nodes)})
             if target is not None:
                 if rng.random() < 0.4:
@@ -862,7 +1160,18 @@ def case_C(ctx, n):
         via = rng.choice(VIAS)
         snap = M.copy.deepcopy(bind)
         history.append({"step": "render:" + step, "via": via, "strict": strict, "context": snap})
-        res = render_on(rib, st["seq"], st["page"], bind, via)
+        if reads and rng.random() < 0.7:
+            bad = read_apis(rib, rng.randrange(8))
+            ctx.count("partc_reporting_api_read_before_render")
+            if bad:
+                ctx.count("recorded_not_judged:reporting-api-raised", bad)
+            history.append({"step": "reporting API read"})
+        page_obj = st["page"]
+        if via == "translate_mrna" and rng.random() < 0.5:       # an equal but distinct template object
+            page_obj = mRNA(sequence=st["seq"], name="page0")
+            ctx.count("partc_equal_but_distinct_page_object")
+        exp = expand(templates, pure, bind)      # the expansion of the bindings as given (before the renderer sees them)
+        res = render_on(rib, st["seq"], page_obj, bind, via)
         ctx.count("partc_renders")
         ctx.count("partc_step:" + step)
         ctx.count("via_" + via)
@@ -870,13 +1179,22 @@ def case_C(ctx, n):
 
         def extra(bind=snap, strict=strict, via=via):
             # would a renderer without this history render it correctly?
-            fresh = judge(ctx, {k: v for k, v in templates.items()}, bind, strict, via, quiet=True) is None
+            fresh = judge(ctx, {k: v for k, v in templates.items()}, bind, strict, via, quiet=True, prof=prof) is None
             return {"history": list(history), "reentrant_filters": reentrant, "fresh_renderer_conforms": fresh,
-                    "other_renderers_in_the_process": len(neighbours)}
+                    "other_renderers_in_the_process": len(neighbours),
+                    "renderer": dict(prof.describe(), silent=silent), "reporting_api_read_in_between": reads}
         refs = []
-        mech = assess(ctx, templates, pure, res, bind, strict, via, prefix="session:after-%s:" % step, tag="partc",
-                      extra_witness=extra, stats_out=stats, ref_out=refs)
+        mech = assess(ctx, templates, pure, res, snap, strict, via, prefix="session:after-%s:" % step, tag="partc",
+                      extra_witness=extra, stats_out=stats, ref_out=refs, exp=exp)
         done.append(step)
+        if stats and prev == "filter-raised":
+            ctx.count("partc_render_judged_after_a_filter_raised")
+        if stats and prev == "error":
+            ctx.count("partc_render_judged_after_an_error_was_raised")
+        prev = "filter-raised" if not stats else ("error" if res[0] == "raise" else "judged")
+        for nb in neighbours:      # the two renderers are used alternately
+            if rng.random() < 0.25:
+                use_neighbour(nb, "own-page-alternating")
         if neighbours and stats:
             ctx.count("partc_renders_while_another_renderer_exists")
             ctx.count("partc_render_on_renderer_created_%s_the_other" % ("after" if created_after_neighbour else "before"))
@@ -1013,6 +1331,139 @@ def case_D(ctx, n):
                    extra_witness=extra)
     if sc.switch_while_other_inside and len(M.construct_kinds(templates)) >= 2:
         ctx.nontrivial(("D", tuple(sorted((k, M.shape(v)) for k, v in templates.items())), nthreads, sc.trace_hash()))
+
+
+# ----------------------------------------------------------------------------- Part E: long histories
+def case_E(ctx, k):
+    """Long histories on ONE renderer (cheap templates, the Part A oracle):
+    k % 3 == 0: > 20 000 renderings, each after one more distinct template was registered; every page includes the newest, an
+                early and a random earlier template; now and then a variable is missing (warning / strict error), a filter
+                raises, the reporting API is read, an unknown include occurs; a second renderer is used alternately;
+    k % 3 == 1: each-loops over > 20 000 distinct items (scalars, dicts, an include per item);
+    k % 3 == 2: one page of several thousand constructs with very long values."""
+    rng = ctx.rng("E", k)
+    R, mRNA = _classes()
+    kind = k % 3
+    ctx.count("parte_cases")
+    if kind == 0:
+        return long_session(ctx, rng, R, mRNA)
+    prof = M.CLASSIC
+    pure = pure_filters(prof)
+    if kind == 1:
+        n_items = E_OPS[ctx.tier] + rng.randrange(5000)
+        templates = {
+            "row": [("text", "<"), ("var", "zr"), ("opt", "zo"), ("text", ">")],
+            "__main__": [("text", "A:"),
+                         ("each", "items", [("var", "index"), ("text", "="), ("dot",), ("text", "/"), ("var", "first"),
+                                            ("var", "last"), ("text", ";")], " "),
+                         ("text", "\nB:"),
+                         ("each", "rows", [("var", "fname"), ("text", ":"), ("var", "price"), ("text", "@"), ("var", "index"),
+                                           ("var", "last"), ("text", "\n")], " "),
+                         ("text", "C:"),
+                         ("each", "users", [("var", "item"), ("inc", "row"), ("filt", "zr", "upper"), ("def", "zd", "Upper")],
+                          "  "),
+                         ("text", "."), ("var", "zmissing")]}
+        bind = {"items": ["i%d" % i for i in range(n_items)],
+                "rows": [{"fname": "f%d" % i, "price": i * 3} if i % 1000 else {"price": i} for i in range(n_items)],
+                "users": tuple(range(300)), "zr": "r", "fname": "outer"}
+        ctx.count("parte_loop_items", 2 * n_items + 300)
+    else:
+        names = M.OUTER[:8]
+        templates = {"t1a": M.gen_nodes(rng, names, None, 2, 5), "t1b": [("text", "(b)")]}
+        templates["__main__"] = M.gen_nodes(rng, names, ["t1a", "t1b"], 2500, 3500)
+        bind = M.gen_context(rng, templates, 0.9)
+        for nme in sorted(M.used_names(templates)[1]):      # every filter must accept its argument (else nothing is judged)
+            bind[nme] = M.gen_text(rng, 0, 3)
+        long_names = [nme for nme in sorted(bind) if isinstance(bind[nme], str)][:3]
+        for i, nme in enumerate(long_names):
+            bind[nme] = ("%d-long value \\1 $1 %%s | " % i) * 80
+        ctx.count("parte_page_constructs", len(templates["__main__"]))
+    for via in (VIAS[k % len(VIAS)], VIAS[(k + 1) % len(VIAS)]):
+        exp = []
+        rib, res = render_real(templates, bind, False, via, prof, True, "register", exp_out=exp)
+        ctx.count("parte_big_renders")
+        mech = assess(ctx, templates, None, res, bind, False, via, prefix="long:", tag="parte", exp=exp[0])
+        if mech is None and exp[0][2] is None:
+            ctx.count("parte_big_renders_conforming")
+    ctx.nontrivial(("E", kind, k))
+
+
+def long_session(ctx, rng, R, mRNA):
+    ops = E_OPS[ctx.tier] + rng.randrange(3000)
+    prof = M.Profile(("rev", "Upper"), "dict")
+    pure = pure_filters(prof)
+    rib = build_renderer(R, mRNA, {}, prof, False, False, "register")      # console output on (swallowed)
+    other = build_renderer(R, mRNA, {"p0": "[other p0:{{v}}]"}, M.CLASSIC, True, True, "register")
+    other_t = {"p0": [("text", "[other p0:"), ("var", "v"), ("text", "]")],
+               "__main__": [("inc", "p0"), ("inc", "p7"), ("def", "v", "UPPER")]}
+    templates = {}
+    strict = False
+    prev_bad = False
+    shapes = set()
+    for i in range(ops):
+        name = "p%d" % i
+        r = i % 5
+        body = [("text", "[%d:" % i), ("var", "v")]
+        if r == 1:
+            body.append(("def", "d", rng.choice(["UPPER", "REV", "dflt", " trim", "Rev"])))     # none of them is a filter here
+        elif r == 2:
+            body.append(("filt", "w", rng.choice(["rev", "Upper", "upper", "json"])))
+        elif r == 3:
+            body.append(("each", "xs", [("var", "index"), ("dot",), ("var", "last")], " "))
+        elif r == 4:
+            body.append(("if", "c", [("opt", "o")], [("text", "no")], " "))
+        body.append(("text", "]"))
+        templates[name] = body
+        with registering("register_template/create_template", {"name": name, "sequence": M.unparse(body), "registered_before": i}):
+            if i % 3:
+                rib.register_template(mRNA(sequence=M.unparse(body), name=name))
+            else:
+                rib.create_template(M.unparse(body), name)
+        early = rng.choice([0, 1, i // 2, rng.randrange(i + 1)])
+        page = [("inc", "p%d" % early), ("text", "|"), ("inc", name), ("text", "|"), ("inc", "p%d" % rng.randrange(i + 1)),
+                ("def", "d", "Json"), ("var", "v")]
+        if i % 17 == 0:
+            page.append(("inc", "p%d" % (i + 1)))              # not registered yet: unknown now, known in the next round
+        if i % 29 == 0:
+            page.append(("filt", "n", "length"))               # raises for a number (the caller's filter error propagates)
+        templates["__main__"] = page
+        bind = {"v": "v%d" % i, "w": "w%d" % (i * 7), "xs": [i, "x"][: i % 3], "c": i % 4, "o": i, "n": i}
+        if i % 13 == 0:
+            del bind["v"]                                      # missing: a warning, or an error in strict mode
+        if i % 7 == 0:
+            bind["d"] = i
+        if i % 97 == 0:
+            strict = not strict
+            rib.strict = strict
+        if i % 401 == 0:
+            read_apis(rib, i)
+            ctx.count("parte_reporting_api_read")
+        via = VIAS[1 + i % 3]        # the page changes every time: an mRNA object or a sequence (never registered)
+        seq = M.unparse(page)
+        exp = expand(templates, pure, bind)
+        res = render_on(rib, seq, mRNA(sequence=seq, name="page%d" % (i % 5)), bind, via)
+        ctx.count("parte_session_renders")
+        before = sum(ctx.violation_counts.values())
+        stats = {}
+        assess(ctx, templates, None, res, bind, strict, via, prefix="long-session:", tag="parte", exp=exp, stats_out=stats,
+               extra_witness=lambda: {"renderings_before_this_one": i, "templates_registered": i + 1})
+        ok = bool(stats) and sum(ctx.violation_counts.values()) == before
+        if ok:
+            ctx.count("parte_session_renders_conforming")
+            if early < i - 20000:
+                ctx.count("parte_include_of_template_registered_over_20000_registrations_ago")
+            if prev_bad:
+                ctx.count("parte_render_judged_after_a_raised_error")
+        prev_bad = res[0] == "raise"
+        shapes.add((r, len(page), res[0]))
+        if i % 1000 == 999:          # the second renderer is used alternately; it knows p0 only (its own), never p7
+            ob = {"v": i} if i % 2000 == 999 else {}
+            ores = render_on(other, M.unparse(other_t["__main__"]), None, ob, "synthesize")
+            ctx.count("parte_other_renderer_renders")
+            assess(ctx, other_t, pure_filters(M.CLASSIC), ores, ob, True, "synthesize", prefix="long-session:other-renderer:",
+                   tag="parte_nb")
+    ctx.count("parte_distinct_templates_on_one_renderer", ops)
+    ctx.nontrivial(("E", 0, ops, tuple(sorted(shapes))))
 
 
 if __name__ == "__main__":
